@@ -106,11 +106,17 @@ func sortAll(c *core.Ctx, keys []int, r *core.Rand) bool {
 	c.Count("inputs", 1)
 	less := func(a, b tg) bool { return a.Key < b.Key }
 	mk := func() []tg {
-		s := make([]tg, n)
+		// spare capacity with sentinels: sorting must stay within len(slice)
+		s := make([]tg, n, n+2)
 		for i, k := range keys {
 			s[i] = tg{k, i}
 		}
+		s[:n+2][n], s[:n+2][n+1] = tg{-1 << 50, -7}, tg{1 << 50, -7}
 		return s
+	}
+	spareOK := func(s []tg) bool {
+		e := s[:cap(s)]
+		return len(e) == n+2 && e[n] == tg{-1 << 50, -7} && e[n+1] == tg{1 << 50, -7}
 	}
 	isPerm := func(s []tg) bool {
 		seen := make([]bool, n)
@@ -145,6 +151,9 @@ func sortAll(c *core.Ctx, keys []int, r *core.Rand) bool {
 		c.Count("sorts", 1)
 		if !isPerm(s) {
 			return fail(v.name+":not-a-permutation", v.name+" result is not a permutation of the input")
+		}
+		if !spareOK(s) {
+			return fail(v.name+":wrote-beyond-len", v.name+" touched the spare capacity of the slice")
 		}
 		for i := 1; i < n; i++ {
 			a, b := s[i-1], s[i]
